@@ -135,10 +135,13 @@ def invalid_flags(argv):
     return ('remove_class_attribute_annotations', True) in names and ('remove_annotations', False) in names
 
 
+_MINIFY_DEFAULTS = {}
+
+
 def compare_keywords(kw, want, ann):
     problems = []
     for p, v in want.items():
-        got = kw.get(p, '<not passed>')
+        got = kw.get(p, _MINIFY_DEFAULTS.get(p, '<not passed>'))       # a keyword that is not passed takes the default of minify()'s signature
         if isinstance(v, list) or p in ('preserve_locals', 'preserve_globals'):
             v = v or []
             if got is None and v == []:
@@ -170,6 +173,10 @@ def run_flags(model, tier):
     if key in _CACHE:
         return _CACHE[key]
     scen, booleans, lists = flag_scenarios(model, tier)
+    _MINIFY_DEFAULTS.clear()
+    for p_, d_ in model.func('python_minifier.minify').defaults().items():
+        if isinstance(d_, ast.Constant):
+            _MINIFY_DEFAULTS[p_] = d_.value
     SRC = b'import os\nimport sys\nprint(os, sys)\n'
     out = []
     for (label, argv) in scen:
